@@ -115,7 +115,7 @@ def run(ctx):
     ctx.rule = ("registry: thread schedules generated by TLC from the lock-free variant of sys/CurveRegistry (3 threads), forced step by step "
                 "on the real registry through the guarded hooks on each of the nine curves (alias names mixed), plus free-running first-use races of "
                 "2-16 threads over 1-3 curves, in several fresh processes; pools: interleavings of new/use/copy/delete enumerated by TLC from "
-                "sys/ObjPool (depth 5, 3 objects; seed-dependent sample) and copy-heavy interleavings of depth 9 simulated by TLC (families with copy() only) over 46 object families (ciphers in every mode family, hashes, XOFs, MACs, "
+                "sys/ObjPool (depth 5, 3 objects; seed-dependent sample) and copy-heavy interleavings of depth 9 simulated by TLC (families with copy() only) over 48 object families (ciphers in every mode family, hashes, XOFs, MACs, "
                 "hash objects handed to RSA/ECDSA/EdDSA signers, EC points with in-place operators, Integers), executed sequentially and with one "
                 "thread per object, plus 2-16-thread stress pools; distinct = distinct (family, mode, event sequence)")
     ctx.assume("races inside native code are only sampled by the threaded runs; the exhaustive part concerns Python-level shared state")
